@@ -320,6 +320,13 @@ def scale_outside_graph(chk, rule="C11.R14"):
     mi, _ = repo.func("quantize_weight")
     NOGRAD = ("torch.no_grad()", "torch.inference_mode()", "torch.set_grad_enabled(False)", "torch.autograd.no_grad()")
     n = 0
+    # helpers of the module that evaluate what they return outside the graph: every return sits in a no_grad block
+    outside = set()
+    for hf in [x for x in ast.walk(mi.tree) if isinstance(x, ast.FunctionDef)]:
+        rets = [x for x in ast.walk(hf) if isinstance(x, ast.Return) and x.value is not None]
+        inside = {id(r) for w in ast.walk(hf) if isinstance(w, ast.With) and any(U(it.context_expr) in NOGRAD for it in w.items) for r in ast.walk(w) if isinstance(r, ast.Return)}
+        if rets and all(id(r) in inside for r in rets):
+            outside.add(hf.name)
     # the entry point and the helpers of its module it may be split into
     for fn in [x for x in ast.walk(mi.tree) if isinstance(x, ast.FunctionDef)]:
         binds = []  # (line, names, outside the graph)
@@ -332,7 +339,7 @@ def scale_outside_graph(chk, rule="C11.R14"):
                     names = []
                     for t in (st.targets if isinstance(st, ast.Assign) else [st.target]):
                         names += [e.id for e in (t.elts if isinstance(t, (ast.Tuple, ast.List)) else [t]) if isinstance(e, ast.Name)]
-                    detached = isinstance(st.value, ast.Call) and isinstance(st.value.func, ast.Attribute) and st.value.func.attr == "detach"
+                    detached = isinstance(st.value, ast.Call) and ((isinstance(st.value.func, ast.Attribute) and st.value.func.attr == "detach") or (isinstance(st.value.func, ast.Name) and st.value.func.id in outside))
                     binds.append((st.lineno, names, nograd or detached))
                 if isinstance(st, ast.With):
                     visit(st.body, nograd or any(U(it.context_expr) in NOGRAD for it in st.items))
